@@ -37,6 +37,9 @@ func c11Vals() []c11Val {
 		{"badurl", func() *rt.Node { return S("a%zzb") }, "a%zzb", true, true},
 		{"json", func() *rt.Node { return S(`{"a":[1,2]}`) }, `{"a":[1,2]}`, true, true},
 		{"numstr", func() *rt.Node { return S("12") }, "12", true, true},
+		{"json-trailing", func() *rt.Node { return S(`{"a":1}}`) }, `{"a":1}}`, true, true},
+		{"json-two-values", func() *rt.Node { return S(`[1] [2]`) }, `[1] [2]`, true, true},
+		{"json-number-junk", func() *rt.Node { return S(`12abc`) }, `12abc`, true, true},
 		{"empty", func() *rt.Node { return S("") }, "", true, true},
 		{"list", func() *rt.Node { return rt.List(I(1), S("a")) }, nil, false, false},
 		{"map", func() *rt.Node { return rt.Map(S("a"), I(1)) }, nil, false, false},
@@ -270,7 +273,7 @@ func init() {
 		Level: "model_checking",
 		Rule: "45 call templates of the 15 builtins (every optional argument present/absent, identifier/attribute/string/expression arguments, all cast types, good and bad regular expressions, format strings with matching and mismatching verbs) " +
 			"x 5 key spellings (identifier, back-quoted, string literal, `_`, attribute expression) x 6 subject situations (variable only, field only, tag only, variable shadowing a field, variable shadowing a tag, absent) " +
-			"x 13 subject values (int, float, bool, plain/padded/url-encoded/undecodable/JSON/numeric/empty strings, list, map, nil) x 3 base points; " +
+			"x 16 subject values (int, float, bool, plain/padded/url-encoded/undecodable/JSON/JSON with trailing text/numeric/empty strings, list, map, nil) x 3 base points; " +
 			"oracle: the whole canonical final point (so every other key is checked untouched), captured standard output, probe trace of return values and of three read-backs, error flag — all equal to the reference builtins",
 		Assumptions: []string{"strings, regexp, net/url, fmt, encoding/json and spf13/cast are the trusted base the reference shares with the code", "unspecified cells: cast of collections / non-numeric strings, cast to \"string\", rename onto an existing key, set_tag from a construct without value"},
 		Run:            c11Run,
